@@ -471,3 +471,27 @@ silent("c02-benign-planar-sech2-is-the-same-derivative", ["C02", "C13"], B + "pl
        "            psi = self.weight / jnp.cosh(x @ self.weight + self.bias) ** 2")
 fire("c14-partial-binds-array", "C14", "flowjax/distributions.py",
      "Lambda(lambda w: log_softmax(w), jnp.log(weights))", "Lambda(partial(log_softmax, jnp.log(weights)))", "C14.closure")
+
+# ------------------------------------------------------------------------------ from the mechanical mutation sweep
+fire("c13-chain-validates-cond-shapes-instead", "C13", B + "chain.py",
+     "check_shapes_match([b.shape for b in unwrapped])", "check_shapes_match([b.cond_shape for b in unwrapped])", "C13.ctor")
+fire("c01-planar-inverse-guard-negated", "C01", B + "planar.py",
+     '    def inverse(self, y, condition=None):\n        if self.activation != "leaky_relu":',
+     '    def inverse(self, y, condition=None):\n        if self.activation == "leaky_relu":', "C01.planar")
+fire("c01-spline-bin-off-by-one", ["C01", "C07"], B + "rational_quadratic_spline.py",
+     "        k = jnp.maximum(jnp.searchsorted(y_pos, y_robust) - 1, 0)",
+     "        k = jnp.maximum(jnp.searchsorted(y_pos, y_robust) - 2, 0)")
+fire("c02-bnaf-callable-logdet", "C02", B + "block_autoregressive_network.py",
+     "        return y, jnp.log(jnp.abs(grad))", "        return y, jnp.exp(jnp.abs(grad))", "C02.bnaf")
+fire("c02-bnaf-activation-grads-transposed", "C02", B + "block_autoregressive_network.py",
+     "            log_abs_grads.reshape(self.shape[0], self.block_dim)",
+     "            log_abs_grads.reshape(self.block_dim, self.shape[0])", "C02.bnaf")
+fire("c09-bnaf-cond-shape-swapped", "C09", B + "block_autoregressive_network.py",
+     "        self.cond_shape = None if cond_dim is None else (cond_dim,)",
+     "        self.cond_shape = (cond_dim,) if cond_dim is None else None", "C09.block")
+fire("c08-vmap-resolve-axes-negated", "C08", B + "jax_transforms.py",
+     "        if callable(in_axes):\n            return tree_map(in_axes, elem)",
+     "        if not callable(in_axes):\n            return tree_map(in_axes, elem)", "C08.shape")
+fire("c08-coupling-conditioner-out-size", "C08", B + "coupling.py",
+     "conditioner_output_size = num_params * (dim - untransformed_dim)",
+     "conditioner_output_size = num_params * (dim + untransformed_dim)", "C08.shape")
